@@ -1132,6 +1132,8 @@ func main() {
 			"agent forwardRequest: the conditions of its if statements, in order (the identity header is set whenever --forward-user-id is on and the credentials are removed whenever --strip-credentials is on: no further condition on the request)")
 		e.strs("retryCountUpdates", updatesOf(a.funcDecl("pollForNewRequests"), "retryCount"), a.funcDecl("pollForNewRequests") != nil, []string{"retryCount++", "retryCount = 0"},
 			"agent pollForNewRequests: every statement that changes the consecutive-failure counter (declared with its zero value, plus one per failed poll, back to 0 on a successful one: the counter of the loop model)")
+		e.strs("assertedIdentitySource", assignedExprs(u.funcDecl("parseRequestFromProxyResponse"), "user"), u.funcDecl("parseRequestFromProxyResponse") != nil, []string{"proxyResp.Header.Get(HeaderUserID)"},
+			"agent/utils parseRequestFromProxyResponse: where the asserted identity comes from (the first value of the proxy's user-ID field, as one string: never a join of several lines)")
 		e.strs("parseRequestIDsConds", ifConds(u.funcDecl("parseRequestIDs")), u.funcDecl("parseRequestIDs") != nil,
 			[]string{"err != nil", "response.StatusCode != http.StatusOK", "len(responseBytes) <= 0", "json.Unmarshal(responseBytes, &requests); err != nil"},
 			"agent/utils parseRequestIDs: the conditions of its if statements, in order (a pending-list answer is a success only with status 200 and a body that is empty or a JSON list; everything else is a failed poll, which the loop answers with the back-off)")
@@ -1344,6 +1346,12 @@ func main() {
 			})
 		}
 		e.zs("emptySessionIDNotCached", []int64{guard}, fd != nil, []int64{0}, "agent/sessions cachedCookieJar: 1 if it returns early (no cache entry) for the empty session ID")
+		{
+			wh := ss.methodDecl("sessionResponseWriter", "WriteHeader")
+			e.strs("sessionWriterOrder", callOrder(wh, map[string]bool{"cookieJar.SetCookies": true, "w.wrapped.WriteHeader": true}), wh != nil,
+				[]string{"w.wrapped.WriteHeader", "w.wrapped.WriteHeader", "cookieJar.SetCookies", "w.wrapped.WriteHeader"},
+				"agent/sessions sessionResponseWriter.WriteHeader: the calls that release the header to the writer behind it and the call that stores the intercepted cookies, in source order (informational branch; branch without cookies; then the cookies go into the jar BEFORE the header is released: a client that follows up at once finds them in its session)")
+		}
 		e.strs("sessionsPackageVars", packageVars(ss), true, nil, "agent/sessions: package-level variables (none: everything sessions share is the Cache, under its mutex)")
 		emit("Sessions", e)
 	}
